@@ -15,192 +15,7 @@ use fastpasta::stats::StatType;
 use serde_json::json;
 use std::collections::{HashMap, HashSet, VecDeque};
 
-/// model states of the documented diagram
-#[derive(Clone, Copy, Debug, PartialEq, Eq, Hash)]
-pub enum MS {
-    Ihw,
-    Tdh,
-    Data,
-    AfterNoData,
-    AfterTdtDone,
-    CIhw,
-    CTdh,
-    CData,
-}
-
-/// word classes of the alphabet
-#[derive(Clone, Copy, Debug, PartialEq, Eq, Hash)]
-pub enum WC {
-    Ihw,
-    Tdh { nd: bool, c: bool },
-    Tdt { done: bool },
-    Ddw0,
-    Cdw,
-    IbData,
-    ObData,
-    Unknown,
-}
-
-pub const ALL_WC: [WC; 12] = [
-    WC::Ihw,
-    WC::Tdh { nd: false, c: false },
-    WC::Tdh { nd: true, c: false },
-    WC::Tdh { nd: false, c: true },
-    WC::Tdh { nd: true, c: true },
-    WC::Tdt { done: false },
-    WC::Tdt { done: true },
-    WC::Ddw0,
-    WC::Cdw,
-    WC::IbData,
-    WC::ObData,
-    WC::Unknown,
-];
-
-#[derive(Clone, Copy, Debug, PartialEq, Eq)]
-pub enum Class {
-    Ihw,
-    IhwContinuation,
-    Tdh,
-    TdhContinuation,
-    TdhAfterPacketDone,
-    Tdt,
-    Cdw,
-    Data,
-    Ddw0,
-}
-
-pub fn class_of_word(w: &[u8]) -> WC {
-    match w[9] {
-        ID_IHW => WC::Ihw,
-        ID_TDH => WC::Tdh { nd: w[1] & 0x20 != 0, c: w[1] & 0x40 != 0 },
-        ID_TDT => WC::Tdt { done: w[8] & 1 != 0 },
-        ID_DDW0 => WC::Ddw0,
-        ID_CDW => WC::Cdw,
-        x if is_data_id(x) && x >> 5 == 1 => WC::IbData,
-        x if is_data_id(x) => WC::ObData,
-        _ => WC::Unknown,
-    }
-}
-
-/// a representative word of a class (field bits from the tape when given)
-pub fn word_of_class(c: WC, t: Option<&mut Tape>) -> Word {
-    let mut rnd = [0u8; 10];
-    let mut sparse = false;
-    if let Some(t) = t {
-        match t.below(3) {
-            0 => {}
-            1 => {
-                let b = t.bytes(10);
-                rnd.copy_from_slice(&b);
-            }
-            _ => {
-                sparse = true;
-                for _ in 0..2 {
-                    let bit = t.below(72);
-                    rnd[bit / 8] |= 1 << (bit % 8);
-                }
-            }
-        }
-        let _ = sparse;
-        let pick_unknown = *t.pick(&[0x00u8, 0x01, 0x1F, 0x29, 0x3F, 0x47, 0x4F, 0x57, 0x5F, 0x60, 0xE1, 0xE5, 0xE9, 0xF1, 0xF9, 0xFF, 0xC0]);
-        let ib = 0x20 + t.below(9) as u8;
-        let ob = *t.pick(&OL_IDS);
-        return build_word(c, rnd, pick_unknown, ib, ob);
-    }
-    build_word(c, rnd, 0x01, 0x20, 0x40)
-}
-
-fn build_word(c: WC, mut w: Word, unknown: u8, ib: u8, ob: u8) -> Word {
-    match c {
-        WC::Ihw => w[9] = ID_IHW,
-        WC::Tdh { nd, c } => {
-            w[9] = ID_TDH;
-            w[1] = (w[1] & !0x60) | if nd { 0x20 } else { 0 } | if c { 0x40 } else { 0 };
-        }
-        WC::Tdt { done } => {
-            w[9] = ID_TDT;
-            w[8] = (w[8] & !1) | done as u8;
-        }
-        WC::Ddw0 => w[9] = ID_DDW0,
-        WC::Cdw => w[9] = ID_CDW,
-        WC::IbData => w[9] = ib,
-        WC::ObData => w[9] = ob,
-        WC::Unknown => w[9] = unknown,
-    }
-    w
-}
-
-#[derive(Debug, Clone, Copy, PartialEq, Eq)]
-pub enum Step {
-    Legal(Class, MS),
-    /// illegal word: expected error-code family at that word
-    Illegal(&'static str),
-}
-
-/// the documented diagram (DESIGN.md appendix A.1). In single-successor states any word is read as the expected
-/// word; it is legal only with the right identifier.
-pub fn model_step(s: MS, w: &[u8]) -> Step {
-    let wc = class_of_word(w);
-    let nd_bit = w[1] & 0x20 != 0;
-    match s {
-        MS::Ihw => {
-            if w[9] == ID_IHW {
-                Step::Legal(Class::Ihw, MS::Tdh)
-            } else {
-                Step::Illegal("30")
-            }
-        }
-        MS::Tdh => {
-            if w[9] == ID_TDH {
-                Step::Legal(Class::Tdh, if nd_bit { MS::AfterNoData } else { MS::Data })
-            } else {
-                Step::Illegal("40")
-            }
-        }
-        MS::CIhw => {
-            if w[9] == ID_IHW {
-                Step::Legal(Class::IhwContinuation, MS::CTdh)
-            } else {
-                Step::Illegal("30")
-            }
-        }
-        MS::CTdh => {
-            if w[9] == ID_TDH {
-                Step::Legal(Class::TdhContinuation, MS::CData)
-            } else {
-                Step::Illegal("40")
-            }
-        }
-        MS::Data | MS::CData => match wc {
-            WC::IbData | WC::ObData => Step::Legal(Class::Data, s),
-            WC::Cdw => Step::Legal(Class::Cdw, s),
-            WC::Tdt { done: true } => Step::Legal(Class::Tdt, MS::AfterTdtDone),
-            WC::Tdt { done: false } => Step::Legal(Class::Tdt, MS::CIhw),
-            _ => Step::Illegal("991"),
-        },
-        MS::AfterNoData | MS::AfterTdtDone => match wc {
-            WC::Tdh { nd, .. } => Step::Legal(Class::TdhAfterPacketDone, if nd { MS::AfterNoData } else { MS::Data }),
-            WC::Ihw => Step::Legal(Class::Ihw, MS::Tdh),
-            WC::Ddw0 => Step::Legal(Class::Ddw0, MS::Ihw),
-            _ => Step::Illegal(if s == MS::AfterNoData { "990" } else { "992" }),
-        },
-    }
-}
-
-/// abstraction from the implementation's state id (hook) to model states
-pub fn alpha(id: u8) -> Option<MS> {
-    Some(match id {
-        0 | 1 => MS::Ihw,
-        2 => MS::Tdh,
-        3 | 4 => MS::Data,
-        5 => MS::AfterNoData,
-        6 => MS::AfterTdtDone,
-        7 => MS::CIhw,
-        8 => MS::CTdh,
-        9 | 10 => MS::CData,
-        _ => return None,
-    })
-}
+pub use crate::fsm_model::*;
 
 fn impl_class(r: &ItsPayloadWord) -> Class {
     match r {
